@@ -93,6 +93,12 @@ def configs(tier, exe):
             if q and tp in TLS and sa in ("fswfsR", "fsfwsssR"):
                 continue
             c.append(("tp=%s,mode=pair,sa=%s,sb=%s,%s" % (tp, sa, sb, MENU), d))
+    # the client sends, flushes and closes at once; the server side completes its handshake only afterwards
+    for tp in T:
+        for sb in ("R", "fR", "sR"):
+            if q and sb != "R" and tp not in ("tls", "btls"):
+                continue
+            c.append(("tp=%s,mode=pair,sa=sssfc,sb=%s,%s" % (tp, sb, MENU), 1 if q else 2))
     for tp in ("ux", "uxf"):
         for sa, sb in (("wR", "ssfc"), ("wsssR", "ssfc"), ("wfsR", "ssfc"), ("sfwR", "rssfc"), ("sfwsR", "rssfc"),
                        ("swR", "ssfc"), ("R", "ssfc")):
